@@ -150,7 +150,7 @@ where
 
     fn update_current_values(&mut self) {
         if let Some(timeline) = self.timelines.get(&self.current_state) {
-            timeline.update(&mut self.current_values, self.state_duration.as_secs_f32());
+            timeline.update(&mut self.current_values, state_seconds(self.state_duration));
         }
     }
 }
@@ -183,7 +183,7 @@ where
         let Some(current_timeline) = self.timelines.get(&self.current_state) else {
             return true;
         };
-        self.state_duration.as_secs_f32() >= current_timeline.duration()
+        state_seconds(self.state_duration) >= current_timeline.duration()
     }
 
     fn set_state(&mut self, state: &State) {
@@ -213,6 +213,15 @@ where
         self.current_state = state.clone();
         self.update_current_values();
     }
+}
+
+/// Converts the time spent in a state to seconds.
+///
+/// [`Duration::as_secs_f32`] rounds the nanoseconds to `f32` precision *before* dividing, so it is
+/// off by one ulp even for exactly representable times (0.5625 s becomes 0.56249994), which made an
+/// animation advanced by exactly its duration report that it had not ended yet.
+fn state_seconds(duration: Duration) -> f32 {
+    duration.as_secs_f64() as f32
 }
 
 // Examples not provided due to https://github.com/rust-lang/rust/issues/82544.
